@@ -91,7 +91,7 @@ def eval_block(block, acc):
 
 def run_tier(tier, t0):
     q = tier == "quick"
-    lengths, fills = ((0, 1, 4), ("inc",)) if q else ((0, 1, 2, 3, 4), ("00", "ff", "inc"))
+    lengths, fills = ((0, 1, 4), ("inc", "00")) if q else ((0, 1, 2, 3, 4), ("00", "ff", "inc", "ws"))
     blocks = [("A", cls, lengths, fills) for cls in range(256)]
     blocks += [("B", cid.hex(), q) for cid in FS.known_clsids()]
     blocks.append(("C",))
@@ -100,7 +100,7 @@ def run_tier(tier, t0):
         PROP, tier, acc, t0, replay_case,
         rule=(
             f"(A) all 65,536 class/ID pairs x lengths {lengths} x fills {fills} x msgmode(4) x parsebitfield(2); (B) every named class/ID x "
-            + ("lengths {0,1,2,nominal-1,nominal,nominal+1,nominal+16} x 2 fills" if q else "every length 0..nominal+16 x 4 fills")
+            + ("lengths {0,1,2,nominal-1,nominal,nominal+1,nominal+16} x 3 fills (incrementing, ff, trailing NULs)" if q else "every length 0..nominal+16 x 6 fills")
             + " x its modes + SETPOLL x 2 views (count-amplifying pairs at boundary lengths only, listed); (C) extreme lengths up to 65,535. "
             "states = distinct (class/ID, mode, verdict) of space B; distinct_nontrivial = distinct (class, mode, length class, verdict)"
         ),
